@@ -402,7 +402,7 @@ def random_shard(arg):
     src_kinds = [k for k in tg.SOURCE_KINDS if ("src:" + k) not in avoid] or ["method"]
     snk_kinds = [k for k in tg.SINK_KINDS if ("snk:" + k) not in avoid] or ["call"]
     profile = {"src_kinds": src_kinds + ["decoy_param", "decoy_call_suffix", "decoy_call_prefix"], "snk_kinds": snk_kinds, "neg": 5,
-               "endings": ["drop", "kill", "wrongpos", "wrongpos", "unrel_field", "unrel_obj", "unrel_var", "const_callee",
+               "endings": ["drop", "kill", "wrongpos", "wrongpos", "far_arg_receiver", "unrel_field", "unrel_obj", "unrel_var", "const_callee",
                            "decoy_fieldw_prefix", "decoy_method_like_call"], "max_links": 3}
 
     @hypothesis.seed(seed)
